@@ -64,6 +64,11 @@ const (
 	// started; FindMissing may already have answered). Nothing fails at the
 	// back end, so only the code under test can notice the cancellation.
 	faultCancelIgnored = "cancel_ignored"
+	// faultAckLost: "written but acknowledgement lost". The back end
+	// carries out the write completely (the blob / Action Cache entry is
+	// stored) and then answers with an error, as a store does whose reply
+	// is lost on the way back. Only writes can fail this way.
+	faultAckLost = "ack_lost"
 )
 
 // callRec is one call received by a fake back end.
@@ -392,7 +397,7 @@ func (s *fakeCAS) Put(ctx context.Context, d digest.Digest, b buffer.Buffer) err
 	}
 	if kind == faultCancelIgnored {
 		w.cancelIgnored(key)
-	} else if kind != faultNone {
+	} else if kind != faultNone && kind != faultAckLost {
 		b.Discard()
 		w.setResult(idx, "fault:"+kind)
 		return w.fail(ctx, key, kind)
@@ -412,6 +417,11 @@ func (s *fakeCAS) Put(ctx context.Context, d digest.Digest, b buffer.Buffer) err
 	s.blobs[dk] = data
 	w.calls[idx].Result = "ok"
 	w.mu.Unlock()
+	if kind == faultAckLost {
+		// Stored, but the caller is told that the write failed.
+		w.setResult(idx, "fault:"+kind+" (stored)")
+		return w.fail(ctx, key, kind)
+	}
 	return nil
 }
 
@@ -421,6 +431,9 @@ type acEntry struct {
 	Key          string
 	Result       *remoteexecution.ActionResult
 	MissingAtPut []string
+	// AckLost: the entry was stored by a call that then reported failure
+	// (fault kind ack_lost).
+	AckLost bool
 }
 
 // fakeAC is an in-memory Action Cache. On every successful Put it checks,
@@ -467,7 +480,7 @@ func (s *fakeAC) Put(ctx context.Context, d digest.Digest, b buffer.Buffer) erro
 	}
 	if kind == faultCancelIgnored {
 		w.cancelIgnored(key)
-	} else if kind != faultNone {
+	} else if kind != faultNone && kind != faultAckLost {
 		b.Discard()
 		w.setResult(idx, "fault:"+kind)
 		return w.fail(ctx, key, kind)
@@ -479,7 +492,7 @@ func (s *fakeAC) Put(ctx context.Context, d digest.Digest, b buffer.Buffer) erro
 		return err
 	}
 	result := proto.Clone(m).(*remoteexecution.ActionResult)
-	e := acEntry{Key: keyOf(d), Result: result}
+	e := acEntry{Key: keyOf(d), Result: result, AckLost: kind == faultAckLost}
 	for _, ref := range referencedDigests(result, nil) {
 		rd, err := digestFunction.NewDigestFromProto(ref.Digest)
 		if err != nil {
@@ -494,6 +507,11 @@ func (s *fakeAC) Put(ctx context.Context, d digest.Digest, b buffer.Buffer) erro
 	s.entries = append(s.entries, e)
 	w.calls[idx].Result = "ok"
 	w.mu.Unlock()
+	if kind == faultAckLost {
+		// Stored, but the caller is told that the write failed.
+		w.setResult(idx, "fault:"+kind+" (stored)")
+		return w.fail(ctx, key, kind)
+	}
 	return nil
 }
 
